@@ -145,6 +145,14 @@ class _InlineFunction(XPathFunction):
             return _v
         return v
 
+    def validated_result(self, result: ta.ValueType) -> ta.ValueType:
+        sequence_type = self.sequence_types[-1]
+        if sequence_type.startswith('xs:') and any(
+                isinstance(x, XPathFunction) and not isinstance(x, XPathArray)
+                for x in (result if isinstance(result, list) else [result])):
+            raise self.error('FOTY0013', "a function item cannot be atomized")
+        return super().validated_result(result)
+
     def __call__(self, *args: ta.FunctionArgType,
                  context: Optional[XPathContext] = None) -> Any:
 
